@@ -26,7 +26,7 @@ ASSUMPTIONS = ['durations are multiples of the step (ceil conversion is exercise
                'M6c excludes ramp profiles (covered by M6b); MIP value tolerance 2e-4 relative',
                'with free starts a spurious start flag is cost-neutral: equality start = on_t - on_(t-1) is only demanded when a start is strictly costly']
 MIN_NONVACUOUS = {'quick': {'uc.pattern_admission': 5000, 'uc.off_means_zero': 62, 'uc.capacity_when_on': 62, 'uc.ramp': 30, 'uc.start_flag': 50,
-                            'uc.fuel_balance': 30, 'uc.heat_share': 20, 'uc.pattern_respects_runtime_downtime': 62, 'uc.value_equals_reference': 50},
+                            'uc.fuel_balance': 30, 'uc.heat_share': 20, 'uc.pattern_respects_runtime_downtime': 40, 'uc.value_equals_reference': 50},
                   'thorough': {'uc.pattern_admission': 60000, 'uc.off_means_zero': 250, 'uc.ramp': 120, 'uc.value_equals_reference': 200}}
 
 
@@ -136,7 +136,8 @@ def run_m6a(rng, tier, case):
 # M6b / M6c
 # -------------------------------------------------------------------------------------------------
 def gen_uc_case(rng, with_profiles, dst_daily=False):
-    g = gen.gen_grid(rng, freqs=['h', 'h', '30min', '2h', '15min'], steps=(6, 14), tzs=[None, 'CET'], units=['h', 'h', 'd', 'min'])
+    # (a tenth of the horizons has only 1-3 steps - as short as a left-over split interval, shorter than ramp profiles and minimum times)
+    g = gen.gen_grid(rng, freqs=['h', 'h', '30min', '2h', '15min'], steps=(6, 14) if rng.random() < 0.9 else (1, 3), tzs=[None, 'CET'], units=['h', 'h', 'd', 'min'])
     if dst_daily:
         for _ in range(20):
             g = gen.gen_grid(rng, dst=True, steps=(6, 12))
